@@ -411,7 +411,8 @@ class Check:
     def finish(self):
         wall = time.time() - self.t0
         for k, (e, n, what) in sorted(self.known.items()):
-            print(f"KNOWN-FINDING: property={self.prop} id={k} occurrences={n} {e.get('description','')} e.g. {what[:300]}")
+            one = " ".join((f"{e.get('description','')} e.g. {what[:300]}").split())
+            print(f"KNOWN-FINDING: property={self.prop} id={k} occurrences={n} {one}")
         rc = 0
         shown = 0
         seen = set()
@@ -429,7 +430,7 @@ class Check:
                     json.dump({"property": self.prop, "sig": sig, "what": what, "case": payload},
                               f, indent=1, default=str)
                 print(f"VIOLATION property={self.prop} replay={path}")
-                print(f"  {what[:600]}")
+                print("  " + " ".join(what[:600].split()))
                 shown += 1
         if len(seen) > shown:
             print(f"  ... and {len(seen)-shown} more distinct violations")
